@@ -7,7 +7,7 @@
 (* variable names) and the convention bound to EVERY live dataset are      *)
 (* compared with the specification's next state.                           *)
 (***************************************************************************)
-EXTENDS EmsSystem, IOUtils, TLCExt
+EXTENDS EmsSystem, Triangulate, IOUtils, TLCExt
 
 TLog == ndJsonDeserialize(IOEnv.TRACE_FILE)
 VARIABLES t, l, fails, seen
@@ -39,7 +39,15 @@ VarAgrees(v, var, o) ==
 Explicit == IsUGrid(B) \/ IsArakawa(B) \/ HasField(B.geom, "xb")
 
 Names == {"Completed", "SameConvention", "CellsAreOriginalCells", "SelectedKeepPolygon", "ValuesAreOriginal", "VariablesPresent",
-          "BindingState", "AnswerMatches", "QueryAnswer", "CellValues", "ExtractAnswer"}
+          "BindingState", "AnswerMatches", "QueryAnswer", "CellValues", "ExtractAnswer", "TrianglesPartitionView"}
+
+\* Triangulate: the triangles reported for position pos (0-based cell index pos) as coordinate triples
+TriNV(o) == Len(o.vertices)
+TriIdxOK(o) == /\ Len(o.cells) = Len(o.triangles)
+               /\ \A k \in 1..Len(o.triangles) : \A m \in 1..3 : o.triangles[k][m] >= 0 /\ o.triangles[k][m] < TriNV(o)
+TriCoordsOf(o, k) == [m \in 1..3 |-> <<o.vertices[o.triangles[k][m] + 1][1], o.vertices[o.triangles[k][m] + 1][2]>>]
+TrisAt(o, p) == LET ks == SelectSeq([k \in 1..Len(o.triangles) |-> k], LAMBDA k : o.cells[k] = p)
+                IN [j \in 1..Len(ks) |-> TriCoordsOf(o, ks[j])]
 
 \* Extract: the requests that survive the policy (1-based positions in the request list), and the cell each row shows
 ExtRows(vq, e) == LET all == [k \in 1..Len(e.cells) |-> k]
@@ -103,6 +111,19 @@ Holds(name, e) ==
                     /\ \A nm \in vq.vars :
                           /\ HasVarS(e.obs.rows, nm)
                           /\ SelectManyOKOff(B, VarOf(nm), shown, "point", ObsVarS(e.obs.rows, nm), vq.off)
+    [] name = "TrianglesPartitionView" ->
+         \* every triangle belongs to a position of THIS view; the triangles of a position tile exactly the original polygon
+         \* of the cell at that position; a cell whose values the view still shows is triangulated (geometry given explicitly)
+         (e.a = "Triangulate" /\ e.obs.ok) =>
+            LET vq == objs[e.obj]  o == e.obs.tri IN
+            /\ TriIdxOK(o)
+            /\ \A k \in 1..Len(o.cells) : o.cells[k] >= 0 /\ o.cells[k] < Len(vq.cells)
+            /\ TriIdxOK(o) =>
+                 \A pos \in 1..Len(vq.cells) :
+                    LET n == vq.cells[pos]  ts == TrisAt(o, pos - 1) IN
+                    \/ Degenerate(RawPoly(B, n))
+                    \/ (ts = <<>> /\ ~(n \in vq.sel /\ MaskAt(B, n) /\ Explicit))
+                    \/ (MaskAt(B, n) /\ IsPartition(DedupRing(PolyAt(B, n)), ts))
     [] name = "AnswerMatches" ->
          /\ (e.a = "Access" => e.obs.conv = out'.conv)
          /\ (e.a \in {"Copy", "ApplyMask", "SelectVariables", "Open"} => e.obs.subject = out'.new)
@@ -118,6 +139,7 @@ SeenOf(e) == {e.a, B.conv}
   \cup (IF e.a = "Query" /\ PosOfCell(objs[e.obj], e.cell) >= 0 /\ objs[e.obj].cells # BaseViewOf(B).cells THEN {"query-on-derived"} ELSE {})
   \cup (IF e.a = "SelectCell" /\ objs[e.obj].cells # BaseViewOf(B).cells THEN {"cell-of-derived"} ELSE {})
   \cup (IF e.a = "ApplyMask" /\ e.mask <= Len(masks) /\ e.obj # 1 THEN {"mask-on-other-dataset"} ELSE {})
+  \cup (IF e.a = "Triangulate" /\ objs[e.obj].cells # BaseViewOf(B).cells THEN {"triangulate-derived"} ELSE {})
   \cup (IF e.a = "Extract" THEN {"extract-" \o e.policy} ELSE {})
   \cup (IF e.a = "Extract" /\ Misses(objs[e.obj], e.cells) # {} THEN {"extract-with-miss"} ELSE {})
   \cup (IF e.a = "Extract" /\ objs[e.obj].cells # BaseViewOf(B).cells THEN {"extract-on-derived"} ELSE {})
@@ -142,6 +164,7 @@ Act(e) ==
     [] e.a = "Query" -> Query(e.obj, e.cell)
     [] e.a = "SelectCell" -> SelectCell(e.obj, e.pos)
     [] e.a = "Extract" -> Extract(e.obj, e.cells, e.policy)
+    [] e.a = "Triangulate" -> Triangulate(e.obj)
 
 Step ==
   /\ ~Done /\ UNCHANGED B
